@@ -95,7 +95,7 @@ harnesses! {
         vassert!(same(q.hi, x) && q.lo == 0.0 && q.lo.is_sign_positive(), "From<f64>(x) == (x, +0)");
     }
     /// new_mul: hi is the rounded product, for all finite pairs
-    #[kani::solver(cvc5)]
+    #[kani::solver(cvc5)] #[kani::stub(crate::arithmetic::fma, fma_fixed)]
     fn new_mul_hi() {
         let a = any_f64!(); let b = any_f64!();
         vassume!(pre_new_mul(a, b));
@@ -103,7 +103,7 @@ harnesses! {
         vassert!(same(r.hi, a * b), "new_mul: hi == RN(a*b)");
     }
     /// new_mul: result normalised when the product is 0 or in [2^-960, 2^1023)
-    #[kani::solver(kissat)]
+    #[kani::solver(kissat)] #[kani::stub(crate::arithmetic::fma, fma_fixed)]
     fn new_mul_valid() {
         let a = any_f64!(); let b = any_f64!();
         vassume!(pre_new_mul(a, b));
